@@ -263,6 +263,58 @@ func dense(kind int, n int) []byte {
 	}
 }
 
+// c05StringGrowth: documents whose copied strings outgrow the string buffer in every way its growth
+// rule distinguishes. A fresh parser sizes the buffer at a tenth of the input (c); the documents hold
+// a first string of 0.5..1.0 c and a second of 1.05..2.5 c (fits / does not fit the doubled buffer,
+// with and without the 32 bytes of slack), padded with numbers to ten times c. The string kernel is
+// assembly: what tells is the length-against-capacity invariant in parseGuarded, the guard pages and
+// the reader sweep.
+func (w *W) c05StringGrowth() {
+	i := 0
+	for _, c := range []int{128, 1000, 10000, 60000} {
+		for _, fa := range []int{50, 90, 100} {
+			for _, fb := range []int{105, 120, 150, 190, 200, 250} {
+				for _, esc := range []bool{false, true} {
+					i++
+					if !w.mine(i) {
+						continue
+					}
+					a, b := c*fa/100, c*fb/100
+					first, second := strings.Repeat("a", a), strings.Repeat("b", b)
+					if esc {
+						second = `\n` + second[2:]
+					}
+					fill := 10*c - a - b - 12
+					if fill < 2 {
+						fill = 2
+					}
+					doc := []byte(`["` + first + `","` + second + `"` + strings.Repeat(",1", fill/2) + `]`)
+					cs := &ev.Case{Gen: "string-growth", Input: doc}
+					w.Journal(cs)
+					if w.Skip() {
+						continue
+					}
+					for _, cfg := range w.configs() {
+						pj, err, pan := w.parseGuarded(doc, cfg, false, true)
+						w.Eval(1)
+						if pan != nil {
+							w.Violation("C05/parse-panic/string-growth/"+panicKey(pan), fmt.Sprintf("Parse (%s, fresh parser) of a %d-byte document with strings of %d and %d bytes: %v", cfg, len(doc), a, b, pan), cs)
+							continue
+						}
+						if err != nil {
+							continue
+						}
+						if got, werr := walk.Into(pj); werr != nil || len(got) != 1 || len(got[0].A) < 2 || len(got[0].A[1].S) != len(second)-b2i(esc) {
+							w.Violation("C05/traverse/string-growth", fmt.Sprintf("Parse (%s, fresh parser) of a %d-byte document with strings of %d and %d bytes: the result cannot be read back (%v)", cfg, len(doc), a, b, werr), cs)
+						}
+						w.Count("string_growth_documents_parsed", 1)
+					}
+				}
+			}
+		}
+	}
+}
+
 func runC05(w *W) {
 	st := &c05State{}
 	th := w.thorough()
@@ -276,6 +328,9 @@ func runC05(w *W) {
 	judge := func(g string, in []byte) { w.c05Judge(st, g, in) }
 	race := w.Out.Variant == "race"
 	r := w.rng("c05")
+	if !race {
+		w.c05StringGrowth()
+	}
 	if !race {
 		// random bytes, several alphabets and lengths
 		nr := 60000
